@@ -54,6 +54,8 @@ MACRO_TEMPLATES = [
     '\\%s{\\begin{center}x\\end{center}}', '\\%s~--``x\'\'', '\\%s{}{}{}{}{}{}', '\\%s*[o][p]{a}{b}',
     # argument text from every character class (upper/lower case, digits, punctuation, non-ASCII), in text and in math
     '\\%s{Ab0 9.,;:!?()+-=/*<>|@}', '$\\%s{X1z}{0}$', '\\%s{\u00e9 \u00df \\alpha 7}{\u03a9}', '\\%s{1}{2}{3}',
+    # the input ends right after the name, a star or an opening delimiter
+    '\\%s*', 'a \\%s  *', '{\\%s*', '\\%s[', '\\%s{', '\\%s*[', '\\%s|', '\\%s ',
 ]
 ENV_TEMPLATES = [
     '\\begin{%s}\\end{%s}', '\\begin{%s}a\\end{%s}', '\\begin{%s}{c}a & b \\\\ c & d\\end{%s}',
@@ -93,7 +95,7 @@ def plan(tier, seed):
 def floors(tier):
     return {'evaluations': 60000, 'distinct_nontrivial': 20000, 'conversions': 60000,
             'histkeys:macro_name': 1000, 'histkeys:env_name': 50, 'histkeys:option_pair': 110,
-            'histkeys:template': 48, 'scaling_conversions_timed': 300, 'histkeys:scaling_family': 30,
+            'histkeys:template': 56, 'scaling_conversions_timed': 300, 'histkeys:scaling_family': 30,
             'function_rule_macro_pairs': 10000}
 
 
